@@ -20,17 +20,21 @@ Definition on_rows (o : option (list arow)) (p : list arow -> bool) : bool :=
   match o with Some rows => p rows | None => false end.
 
 Lemma rows_sweep : on_rows the_rows (fun rows => (Nat.eqb (length rows) 513 && forallb row_ok rows)%bool) = true.
-Proof. Time vm_compute. Time reflexivity. Time Qed.
+Proof. vm_compute. reflexivity. Qed.
 
-Time Lemma rows_loaded : exists rows, the_rows = Some rows /\ length rows = 513%nat.
+Lemma on_rows_some : forall o p, on_rows o p = true -> exists rows, o = Some rows /\ p rows = true.
+Proof. intros [rows|] p H; [exists rows; split; [reflexivity|exact H]|discriminate]. Qed.
+
+Lemma rows_loaded : exists rows, the_rows = Some rows /\ length rows = 513%nat.
 Proof.
-  pose proof rows_sweep as H. unfold on_rows in H. destruct the_rows as [rows|]; [|discriminate].
-  exists rows. split; [reflexivity|]. apply andb_prop in H. apply Nat.eqb_eq. apply H.
+  destruct (on_rows_some _ _ rows_sweep) as [rows [E H]]. exists rows. split; [exact E|].
+  apply andb_prop in H. apply Nat.eqb_eq. apply H.
 Qed.
 
 Lemma rows_all_ok : forall rows, the_rows = Some rows -> forall r, In r rows -> row_ok r = true.
 Proof.
-  intros rows E r Hin. pose proof rows_sweep as H. unfold on_rows in H. rewrite E in H.
+  intros rows E r Hin. destruct (on_rows_some _ _ rows_sweep) as [rows' [E' H]].
+  rewrite E in E'. injection E' as <-.
   apply andb_prop in H. destruct H as [_ H]. rewrite forallb_forall in H. apply H. assumption.
 Qed.
 
@@ -38,4 +42,4 @@ Qed.
 Lemma rows_census : on_rows the_rows (fun rows =>
   (Nat.eqb (length (filter is_b rows)) 29 && Nat.eqb (length (filter is_2n rows)) 63
    && Nat.eqb (length (filter r_fast rows)) 141)%bool) = true.
-Proof. Time vm_compute. Time reflexivity. Time Qed.
+Proof. vm_compute. reflexivity. Qed.
